@@ -280,11 +280,30 @@ func classifyC07(r *rig, res *scnResult, t *tree) (string, string) {
 // generators
 
 // genForbidden: an evil node whose chain contains a forbidden header at height hx, honest nodes on the main chain.
+// evilFix pins the matrix dimensions of the C07 generators (-1 = drawn): chain length, height of the offending header
+// (forbidden) / checkpoint height (mismatch), cap alphabet index of the misbehaving node, length of the initial prefix,
+// who comes first (0 = the misbehaving node)
+type evilFix struct {
+	L, Hx, Cap, Init, First int
+}
+
+var evilPin *evilFix // set by the thorough matrix only
+
 func genForbidden(rng *rand.Rand, o genOpts, engine string) *scn {
+	fx := evilPin
+	if fx == nil {
+		fx = &evilFix{-1, -1, -1, -1, -1}
+	}
 	L := 5 + rng.Intn(o.MaxLen-4)
+	if fx.L > 0 {
+		L = fx.L
+	}
 	future := 0
 	s := &scn{Engine: engine, Sched: "serial", Seed: rng.Int63n(1 << 30), Salt: rng.Uint32(), Parents: linearParents(L + future)}
 	hx := 1 + rng.Intn(L) // height of the forbidden header: its parent is main[hx-2] (genesis for 1)
+	if fx.Hx > 0 {
+		hx = fx.Hx
+	}
 	x := len(s.Parents)
 	s.Parents = append(s.Parents, hx-2)
 	desc := 1 + rng.Intn(3)
@@ -319,7 +338,13 @@ func genForbidden(rng *rand.Rand, o genOpts, engine string) *scn {
 	if rng.Intn(3) == 0 && hx >= 2 {
 		s.Init = seq(0, rng.Intn(hx-1)+1)
 	}
+	if fx.Init >= 0 {
+		s.Init = seq(0, fx.Init)
+	}
 	evil := scnNode{Path: evilPath, Pos: len(evilPath), Cap: capAlphabet[rng.Intn(len(capAlphabet))], Dir: "out", Honest: false, CloseAt: -1, StallAt: -1}
+	if fx.Cap >= 0 {
+		evil.Cap = capAlphabet[fx.Cap]
+	}
 	if rng.Intn(3) == 0 {
 		evil.Dir = "in"
 	}
@@ -355,7 +380,11 @@ func evilSteps(rng *rand.Rand, s *scn, nHonest int, evilPath []int) {
 	if s.Engine == "exp" {
 		honest = honest[:1]
 	}
-	if rng.Intn(2) == 0 {
+	first := rng.Intn(2)
+	if evilPin != nil && evilPin.First >= 0 {
+		first = evilPin.First
+	}
+	if first == 0 {
 		s.Steps = append(s.Steps, scnStep{Kind: "connect", Node: 0}, scnStep{Kind: "run"})
 		for _, i := range honest {
 			s.Steps = append(s.Steps, scnStep{Kind: "connect", Node: i})
@@ -380,10 +409,20 @@ func evilSteps(rng *rand.Rand, s *scn, nHonest int, evilPath []int) {
 
 // genMismatch: an evil node on a branch that forks below a checkpoint, honest nodes on the main chain.
 func genMismatch(rng *rand.Rand, o genOpts, engine string) *scn {
+	fx := evilPin
+	if fx == nil {
+		fx = &evilFix{-1, -1, -1, -1, -1}
+	}
 	L := 6 + rng.Intn(o.MaxLen-5)
+	if fx.L > 0 {
+		L = fx.L
+	}
 	future := 0
 	s := &scn{Engine: engine, Sched: "serial", Seed: rng.Int63n(1 << 30), Salt: rng.Uint32(), Parents: linearParents(L + future)}
-	c := 2 + rng.Intn(L-2)   // checkpoint height (tree index c-1)
+	c := 2 + rng.Intn(L-2) // checkpoint height (tree index c-1)
+	if fx.Hx >= 2 {
+		c = fx.Hx
+	}
 	f := rng.Intn(c - 1)     // last common height (0 = genesis): evil branch starts at height f+1 <= c-1 ... c
 	m := c - f + rng.Intn(3) // long enough to reach the checkpoint height
 	side := []int{}
@@ -410,11 +449,17 @@ func genMismatch(rng *rand.Rand, o genOpts, engine string) *scn {
 	if f >= 1 && rng.Intn(3) == 0 {
 		s.Init = seq(0, 1+rng.Intn(f))
 	}
+	if fx.Init >= 0 && fx.Init <= f {
+		s.Init = seq(0, fx.Init)
+	}
 	if rng.Intn(4) == 0 {
 		s.Sched = "free"
 	}
 	evilPath := append(seq(0, f), side...)
 	evil := scnNode{Path: evilPath, Pos: len(evilPath), Cap: capAlphabet[rng.Intn(len(capAlphabet))], Dir: "out", Honest: false, CloseAt: -1, StallAt: -1}
+	if fx.Cap >= 0 {
+		evil.Cap = capAlphabet[fx.Cap]
+	}
 	s.Nodes = append(s.Nodes, evil)
 	nHonest := 1 + rng.Intn(2)
 	for i := 0; i < nHonest; i++ {
@@ -460,6 +505,42 @@ func runC07(c *Ctx) error {
 	}
 	start := time.Now()
 	rigErrs := 0
+	if c.Thorough {
+		// the full small matrix, once: chain of 8 headers; the offending header at EVERY height 1..8 (forbidden) /
+		// checkpoint at every height 2..7 (mismatch) x cap {1,2,7,2000} of the misbehaving node x initial prefix 0..h-1
+		// x {misbehaving node first, honest nodes first} x both engines — every batch position occurs
+		mrng := lib.Rng(c.Seed, "c07-matrix")
+		n := 0
+		runOne := func(kind string, s *scn) {
+			name := fmt.Sprintf("matrix-%s-%s-%d", kind, s.Engine, n)
+			n++
+			res := runScenario(name, s, oracleC07)
+			if res.Err != nil {
+				res = runScenario(name+"-retry", s, oracleC07)
+			}
+			reportC07(c, res, &rigErrs)
+			l.check(c, res)
+			c.R.Count("kind:matrix-"+kind, 1)
+		}
+		for _, engine := range []string{"legacy", "exp"} {
+			for capi := range capAlphabet {
+				for first := 0; first < 2; first++ {
+					for hx := 1; hx <= 8; hx++ {
+						for init := 0; init < hx; init++ {
+							evilPin = &evilFix{L: 8, Hx: hx, Cap: capi, Init: init, First: first}
+							runOne("forbidden", genForbidden(mrng, genOpts{MaxLen: 8}, engine))
+							if hx >= 2 && hx <= 7 {
+								runOne("mismatch", genMismatch(mrng, genOpts{MaxLen: 8}, engine))
+							}
+						}
+					}
+				}
+			}
+		}
+		evilPin = nil
+		c.R.Exhaustive = true
+		c.R.Notes = append(c.R.Notes, fmt.Sprintf("full small matrix: %d scenarios", n))
+	}
 	for i := 0; i < count && time.Since(start) < budget; i++ {
 		engine := "legacy"
 		if rng.Intn(3) == 0 {
